@@ -474,6 +474,10 @@ func (f c24FloatFmt) elem(v *c24Val) c24Elem {
 	if scaled.IsInt() {
 		return c24Elem{Exact: true, Bits: f.bitsFor(v.Neg, floor, q)}
 	}
+	if floor.Sign() == 0 && scaled.Cmp(big.NewRat(1, 2)) <= 0 {
+		// a non-zero value at or below half of the smallest subnormal can only be stored as zero: it does not fit the element type
+		return c24Elem{MustReject: true}
+	}
 	return c24Elem{Bits: f.bitsFor(v.Neg, floor, q), Alt: f.bitsFor(v.Neg, new(big.Int).Add(floor, big.NewInt(1)), q)}
 }
 
